@@ -6,7 +6,7 @@ import vf
 
 LEVEL = "proof"
 CLAIM = dict(cat="proof", design="§3 C08, Appendix A.4, §2.1 E-S",
-   text="27 Coq theorems (no axioms) over a small-step interleaving model, one step = one atomic operation, of AtomicValue (CAS lock/unlock, fetch-add, the CAS loop of max), "
+   text="30 Coq theorems (no axioms) over a small-step interleaving model, one step = one atomic operation, of AtomicValue (CAS lock/unlock, fetch-add, the CAS loop of max), "
         "LockFree::add (load + CAS loop), ThreadLock (CAS spin), ThreadSafeVector get_free_element[_safe]/free_element (cursor modulo size with the 2^64 wrap, occupancy and statistics "
         "counters), Task::lock_dependency/unlock_dependency (two locks, rollback) and TaskQueue add_task/get_task/try_get_task (queue lock, scan from the top, gap closing), for EVERY number "
         "of threads, EVERY pool size, EVERY task table, EVERY number of queues and EVERY schedule of clients that obey the interface contract (inductive invariants over all reachable states): "
@@ -14,8 +14,8 @@ CLAIM = dict(cat="proof", design="§3 C08, Appendix A.4, §2.1 E-S",
         "operations in flight otherwise, released_becomes_available (a requester running alone finds a free slot, around the pool and across the 2^64 wrap), counter_no_lost_update "
         "(pre/post_increment and LockFree::add), max_is_max, lock_exclusive (lock word = holder), queue critical section exclusive, queue_hands_out_once (queue + returned + about to be "
         "returned = added, as multisets), handout_owns_all_resources, rollback_leaves_no_lock (no lock leaked by any failed attempt), free_resources_imply_handout (a get_task running alone on "
-        "a queue that contains a task with all locks free returns a task), and the necessity of its side condition: a task naming the same lock twice is never handed out (defect D2 at "
-        "container level). Tie: on every run the real classes are executed by real threads under a deterministic scheduler (guarded yield hook before each atomic operation, hook H1) on "
+        "a queue that contains a task with all locks free returns a task - no side condition for the code as it is now), and Task::set_extra_dependency as repaired for D2: a task given the "
+        "same lock twice has one dependency, is handed out with it and releases one lock, whereas in the pinned variant (model switch dedup = false) it is provably never handed out. Tie: on every run the real classes are executed by real threads under a deterministic scheduler (guarded yield hook before each atomic operation, hook H1) on "
         "exhaustive and seeded schedules; the extracted model runs the same schedules and every step (operation, variable, value before/after, return value, complete shared state) is compared.",
    note="C++11 seq_cst atomics are modelled as sequentially consistent interleaving (what std::atomic defaults guarantee); plain non-atomic reads/writes (queue array and size under the queue "
         "lock) are modelled as atomic, executed together with the preceding atomic operation of the same thread - stated, not verified; compare_exchange_weak is assumed not to fail spuriously "
